@@ -7,6 +7,7 @@ TimeoutLimit clauses are corollaries of the theorems about every disciplined sit
 import GoZero.C05.ProofsSim
 import GoZero.C05.Props
 import GoZero.C05.ProofsWG
+import GoZero.C05.ModelCond
 namespace GoZero.C05
 
 /-- **Simulation.**  Every reachable state of ModelTL (any capacity, any number of callers, any order of
@@ -169,5 +170,69 @@ example : ∃ s, WGReach 2 s ∧ s.job 0 = .running ∧ s.job 1 = .running ∧ s
 
 example : ∃ s, WGReach 0 s ∧ s.start = .returned :=
   ⟨_, .step (.step .init (.loopExit rfl rfl)) (.waitReturns rfl rfl), rfl⟩
+
+/-! ## `syncx.Cond`: Wait / WaitWithTimeout / Signal -/
+
+/-- **A Signal wakes exactly one parked waiter, which proceeds**: the receiver leaves its `Wait` /
+`WaitWithTimeout` (with `ok = true`), every other goroutine stays where it is. -/
+theorem cond_signal_wakes_exactly_one {s s' : CSt} {t : Tid} {e : Int} (h : CStep s (.signalTo t e) s') :
+    isParked (s t) = true ∧ (∃ r, s' t = .proceeded r true) ∧ ∀ u, u ≠ t → s' u = s u := by
+  cases h with
+  | toWait ht => exact ⟨by rw [ht]; rfl, ⟨0, by simp [upd]⟩, fun u hu => by simp [upd, hu]⟩
+  | toTimed ht =>
+    refine ⟨by rw [ht]; rfl, ?_, fun u hu => by simp [upd, hu]⟩
+    simp only [upd, if_true, waitResult]
+    exact ⟨_, rfl⟩
+
+/-- **`Signal` never blocks** and is lost exactly when nobody is parked (the channel is unbuffered: nothing is stored
+for a later waiter — `tie_cond_channel`). -/
+theorem cond_signal_never_blocks (s : CSt) :
+    (∃ t e s', CStep s (.signalTo t e) s') ∨ (CStep s .signalLost s ∧ ∀ t, isParked (s t) = false) := by
+  by_cases h : ∃ t, isParked (s t) = true
+  · obtain ⟨t, ht⟩ := h
+    left
+    cases hl : s t with
+    | parkedWait => exact ⟨t, 0, _, .toWait hl⟩
+    | parkedTimed d => exact ⟨t, 0, _, .toTimed hl⟩
+    | idle => rw [hl] at ht; cases ht
+    | proceeded _ _ => rw [hl] at ht; cases ht
+  · right
+    have hn : ∀ t, isParked (s t) = false := by
+      intro t
+      cases hp : isParked (s t)
+      · rfl
+      · exact absurd ⟨t, hp⟩ h
+    exact ⟨.lost hn, hn⟩
+
+theorem cond_signal_lost_changes_nothing {s s' : CSt} (h : CStep s .signalLost s') :
+    s' = s ∧ ∀ t, isParked (s t) = false := by
+  cases h with
+  | lost hn => exact ⟨rfl, hn⟩
+
+/-- **What `WaitWithTimeout(timeout)` returns.**  Signalled: `(timeout − elapsed, true)`; timer: `(0, false)`.
+With `elapsed ≥ 0` the remaining time never exceeds the timeout, and it is non-negative EXACTLY when the signal was
+received within the timeout.  It CAN be negative (`cond_remaining_can_be_negative`): `select` picks at random between a
+ready signal and a fired timer, and the clock is read after the receive — "never negative" is not what the code
+guarantees; its only caller on the property's path, `TimeoutLimit.Borrow`, treats `timeout <= 0` as expired
+(`tie_timeoutLimit_conds`), so a negative value is an immediate `ErrTimeout` unless the retry gets a permit. -/
+theorem cond_wait_result (timeout elapsed : Int) (he : 0 ≤ elapsed) :
+    waitResult timeout (.signalled elapsed) = (timeout - elapsed, true)
+    ∧ (waitResult timeout (.signalled elapsed)).1 ≤ timeout
+    ∧ (0 ≤ (waitResult timeout (.signalled elapsed)).1 ↔ elapsed ≤ timeout)
+    ∧ waitResult timeout .timerFired = (0, false) := by
+  refine ⟨rfl, ?_, ?_, rfl⟩ <;> simp only [waitResult] <;> omega
+
+theorem cond_remaining_can_be_negative : waitResult 5 (.signalled 7) = (-2, true) := by decide
+
+/-- a `Borrow` that is woken k times has, after the k-th wake-up, its original timeout minus the time spent parked:
+the remaining timeouts handed from round to round are the model's `waitResult` values. -/
+def remainAfter (timeout : Int) : List Int → Int
+  | [] => timeout
+  | e :: es => remainAfter (waitResult timeout (.signalled e)).1 es
+
+theorem borrow_time_budget (timeout : Int) (es : List Int) : remainAfter timeout es = timeout - es.sum := by
+  induction es generalizing timeout with
+  | nil => simp [remainAfter]
+  | cons e es ih => simp only [remainAfter, waitResult, ih, List.sum_cons]; omega
 
 end GoZero.C05
